@@ -24,6 +24,7 @@ import (
 	"go/build/constraint"
 	"math/rand"
 	"reflect"
+	"runtime/debug"
 	"sort"
 	"strings"
 	"testing"
@@ -170,6 +171,11 @@ func c17btFlags(r *rand.Rand, tags []string) ([]string, string) {
 func TestVerifC17Buildtags(t *testing.T) {
 	rep := vNewReport("buildtags.CheckTags/parseBuildTags: #cgo conditions of 1-3 blank-separated alternatives; old syntax = 1-3 comma-separated terms, each an optional ! plus a word from {6 user tags, nosuch, 5 GOOS and 4 GOARCH words, cgo, unix, gc, gccgo, go1.1, go1.21, go1.99, ignore}; //go:build syntax (&& || ! parentheses, depth<=3, no blanks) only when its probe passes; -tags given as \"-tags v\" or \"-tags=v\", comma list with duplicates/empty elements or legacy blank list, subsets of {foo,bar,baz,llgo,dev,my_tag,windows,arm64}, surrounded by unrelated flags; 1-6 conditions per call. Reference: go/build/constraint Parse+Eval per field as go/build's #cgo handling does, tag truth of go/build.Default + the -tags set; cross-checked by a hand-written OR-of-AND-of-NOT evaluator. parseBuildTags: set equality with the go tool's reading of a single -tags flag")
 	defer rep.Write()
+	defer func() { // a panic of the code under test outside a guarded call is an observation, not a broken check
+		if p := recover(); p != nil {
+			rep.Fail("buildtags:panic", "monitor", fmt.Sprintf("panic escaped the monitor: %v\n%s", p, debug.Stack()), nil)
+		}
+	}()
 	ctx := build.Default
 
 	eval1 := func(flags []string, cond string) (res bool, panicked any) {
@@ -237,7 +243,7 @@ func TestVerifC17Buildtags(t *testing.T) {
 	}
 
 	r := rand.New(rand.NewSource(vSeed()*1000003 + 173))
-	total := vN(30000, 1500000)
+	total := vN(8000, 400000)
 	done := 0
 	for done < total {
 		// -tags set
